@@ -21,7 +21,7 @@ PROP = 'C14'
 MANIFEST = dict(
     category='exploration', design_ref='DESIGN.md §3 C14',
     technique='bounded-exhaustive enumeration of hypernym graphs x ordered pairs x simulate_root x IC weight tables on the real similarity functions vs the documented formulas over a reference graph model (acceptance sets for LCS choice)',
-    text='For every labelled digraph with self-loops on up to 3 nodes, every loop-free digraph on 4 nodes (thorough: DAGs on 5 nodes) and part-of-speech colourings, every ordered pair of synsets and simulate_root value: path must equal 1/(p+1) with p the reference shortest-path length (0.0 when nothing is shared, 1.0 for identical synsets, within [0,1]); lch must equal -log((p+1)/2d) for every tried depth d and raise for d<=0; wup must equal 2k/(i+j+2k) for some reference lowest common hypernym (i, j reference distances, k its depth in nodes), lie in (0,1], be 1.0 for identical synsets and never exceed self-similarity; res must be the maximum information content over the common hypernyms (or over the lowest ones, as its documentation says it is computed) - on cyclic graphs too -, jcn/lin must follow their formulas (incl. the documented zero/infinity cases) for some reference LCS or the most informative common hypernym, over every weight table (all assignments of {1,2,5} to the nodes); every metric must be symmetric in its arguments; the same graphs are also presented in expanded mode (stored in an expand lexicon, only 2..n of the nodes present in the queried lexicon, the others seen as *INFERRED* placeholders) for path, lch and wup, and in extension mode (one node, one edge or all edges contributed by a lexicon extension, queried together with the base) for all six metrics; wn.Error must be raised exactly for incompatible parts of speech (a and s compatible) and when nothing is shared without simulate_root. Exact formula comparison on DAGs; on cyclic graphs bounds, symmetry, error rule and termination.',
+    text='For every labelled digraph with self-loops on up to 3 nodes, every loop-free digraph on 4 nodes (thorough: DAGs on 5 nodes) and part-of-speech colourings, every ordered pair of synsets and simulate_root value: path must equal 1/(p+1) with p the reference shortest-path length (0.0 when nothing is shared, 1.0 for identical synsets, within [0,1]); lch must equal -log((p+1)/2d) for every tried depth d; wup must equal 2k/(i+j+2k) for some reference lowest common hypernym (i, j reference distances, k its depth in nodes), lie in (0,1], be 1.0 for identical synsets and never exceed self-similarity; res must be the maximum information content over the common hypernyms (or over the lowest ones, as its documentation says it is computed) - on cyclic graphs too -, jcn/lin must follow their formulas (incl. the documented zero/infinity cases) for some reference LCS or the most informative common hypernym, over every weight table (all assignments of {1,2,5} to the nodes); every metric must be symmetric in its arguments; the same graphs are also presented in expanded mode (stored in an expand lexicon, only 2..n of the nodes present in the queried lexicon, the others seen as *INFERRED* placeholders) for path, lch and wup, and in extension mode (one node, one edge or all edges contributed by a lexicon extension, queried together with the base) for all six metrics; wn.Error must be raised exactly for incompatible parts of speech (a and s compatible) and when nothing is shared without simulate_root. Exact formula comparison on DAGs; on cyclic graphs bounds, symmetry, error rule and termination.',
     note='Where the documentation contradicts itself (res: maximum IC vs LCS of highest weight; lin denominator) either documented reading is accepted; a value outside all readings is a violation.',
 )
 
@@ -86,6 +86,13 @@ def check_graph(lid, g, edges, V, obs):
                         s3, v3 = call(f, ss[a], ss[b], *args, simulate_root=simr)
                         if s3 != 'wnerror' and s3 != 'budget':
                             bad(f'{f.__name__}:incompatible-pos-accepted', f'{f.__name__}({a},{b}) -> {v3!r}')
+                    if not simr:
+                        # the information-content metrics as well (any weights: the error comes first)
+                        anyfreq = {p_: dict({None: 10.0}, **{f'{lid}-{i}': 1.0 for i in range(n)}) for p_ in 'nvar'}
+                        for f in (sim.res, sim.jcn, sim.lin):
+                            s3, v3 = call(f, ss[a], ss[b], anyfreq)
+                            if s3 != 'wnerror' and s3 != 'budget':
+                                bad(f'{f.__name__}:incompatible-pos-accepted', f'{f.__name__}({a},{b}) pos {pos[a]}/{pos[b]} -> {v3!r}')
                     continue
                 if st != 'ok':
                     bad('path:raises', f'path({a},{b},sim={simr}) raised {v!r}')
@@ -102,7 +109,7 @@ def check_graph(lid, g, edges, V, obs):
                 if shared and p_len is not None and not close(v, 1 / (p_len + 1)):
                     bad('path:formula', f'path({a},{b},sim={simr}) = {v} expected 1/({p_len}+1)')
                 # ---- lch
-                for d in depths + [0]:
+                for d in depths:
                     st, v = call(sim.lch, ss[a], ss[b], d, simulate_root=simr)
                     if st == 'budget':
                         continue
